@@ -159,6 +159,7 @@ def run(chk, only=None):
             if ex.bound_hit:
                 chk.inconclusive_note(f"{cname}: path bound hit")
             for p in paths:
+                ctx.assign = dict(p.assign)  # replays fall back to this path's witness point
                 if p.kind == "exc":
                     chk.notes.append(f"{cname}: raises {type(p.value).__name__}: {str(p.value)[:80]} (C16)")
                     chk.section("raised", n=1)
